@@ -173,6 +173,12 @@ def unlink_release(ctx):
         if not rem:
             continue
         inodes_del = [w for w in ws if w.attr == 'inodes' and _is_del_write(w)]
+        if not inodes_del:
+            # the release may live in a helper called from here (one level)
+            for c in ctx.calls(fi):
+                for cal in c.callees:
+                    if any(w2.attr == 'inodes' and _is_del_write(w2) for w2 in effects.direct_writes(ctx, cal)):
+                        inodes_del.append(c)
         has_empty_test = False
         for node in ctx.own_nodes(fi):
             if isinstance(node, (ast.If, ast.While)):
